@@ -203,6 +203,20 @@ func c22Invariants(m *mcNode, report func(key, desc string), ctx string) {
 			report("finalization-mismatch", fmt.Sprintf("%s: snapshot %s does not contain %s", ctx, sh, h))
 		}
 	}
+	// every stored snapshot's transactions are finalized (record, body, outputs)
+	for _, v := range st.VerifDump("SNAPSHOT") {
+		vb, _ := hex.DecodeString(v)
+		sn, err := common.UnmarshalVersionedSnapshot(vb)
+		if err != nil {
+			continue // SNAPTOPO shares the prefix; only snapshot encodings matter here
+		}
+		for _, h := range sn.Transactions {
+			tx, snap, err := st.ReadTransaction(h)
+			if err != nil || tx == nil || snap == "" {
+				report("snapshot-without-finalization", fmt.Sprintf("%s: stored snapshot %s lists transaction %s which has no body/finalization record (%v)", ctx, sn.PayloadHash(), h, err))
+			}
+		}
+	}
 	// topology positions are unique and TOPOLOGY <-> SNAPTOPO is a bijection
 	topo := st.VerifDump("TOPOLOGY")
 	rev := st.VerifDump("SNAPTOPO")
@@ -339,7 +353,12 @@ func TestMC_C22(t *testing.T) {
 		}
 		c.Distinct(fmt.Sprintf("%d|%d", j.script, j.cut))
 		c.Outcome("crash-in:" + steps[at].name)
-		re, err := newMCNode(mcNet7, 0, dir)
+		var re *mcNode
+		var err error
+		if pp, site := verifmc.CatchSite(func() { re, err = newMCNode(mcNet7, 0, dir) }); pp != nil {
+			report("restart-panicked:"+site, fmt.Sprintf("%s (in step %s): SetupNode panicked: %v", ctx, steps[at].name, pp))
+			return
+		}
 		if err != nil {
 			report("restart-failed:"+c22Class(err.Error()), fmt.Sprintf("%s (in step %s): SetupNode failed: %v", ctx, steps[at].name, err))
 			return
